@@ -342,7 +342,8 @@ macro_rules! v5_parts {
             start_senders(&w, &plan, ses.sink().clone());
         }
         async move {
-            Ok::<_, AppErr>(fn_service(move |p: v5::Publish| publish_handler(w.clone(), conn, p, "default")))
+            let w0 = w.clone();
+            Ok::<_, AppErr>(crate::common::GSvc { w: w0, conn, f: move |p: v5::Publish| publish_handler(w.clone(), conn, p, "default") })
         }
     });
 
@@ -867,7 +868,7 @@ pub async fn run_client(w: Rc<World>, plan: Rc<Plan>) {
         } else {
             client
                 .start_with_control(
-                    fn_service(move |m: v5::client::ProtocolMessage| client_proto_handler(wa.clone(), m)),
+                    crate::common::GSvc { w: wa.clone(), conn: 0, f: move |m: v5::client::ProtocolMessage| client_proto_handler(wa.clone(), m) },
                     fn_service(move |m: Control<AppErr>| control_handler(wb.clone(), 0, gated, m)),
                 )
                 .await
